@@ -245,6 +245,10 @@ func (g *gen) obj(self int, depth int, allowAllOf bool) *Obj {
 		}
 	}
 	np := 1 + g.intn(3, "nprops")
+	// an object that only inherits (`{} // {allOf: ...}`), or an empty base
+	if (len(o.AllOf) > 0 && g.chance(1, 4, "emptyHeir")) || (len(o.AllOf) == 0 && depth == 0 && self >= 0 && g.chance(1, 12, "emptyObj")) {
+		np = 0
+	}
 	for i := 0; i < np; i++ {
 		o.Props = append(o.Props, Prop{Key: fmt.Sprintf("k%d", g.num()), V: g.propVal(self, depth)})
 	}
